@@ -45,7 +45,13 @@ def run(ctx):
         pick = ctx.rng.sample(cells, 150)
         # a couple of recorded failing cells run first (they must still be recognised), plus one world preset
         extra = [c for c in cells if (c["iso3"], c["preset"]) in known_cells][:2]
-        cells = extra + pick + [ctx.rng.choice(wcells)]
+        # sentinels: the countries the code itself special-cases (known-to-fail rewrites, loosened tolerances, the NZL constant)
+        # and very small ones, under the presets that stress them
+        sc = {"SLV", "ALB", "ECU", "LSO", "DJI", "TCD", "MUS", "NZL", "LUX"}
+        sp = {"ms_example_all_resilient_foods", "ms_example_seaweed", "net_nuclear_winter_reduced", "net_nuclear_resilient",
+              "var_shutoff=continued"}
+        sentinels = [c for c in cells if c["iso3"] in sc and c["preset"] in sp]
+        cells = extra + sentinels + pick + [ctx.rng.choice(wcells)]
     else:
         cells = cells + wcells
     ms = dict(presets.fig1()["ms_no_adaptations"])
